@@ -120,6 +120,17 @@ CHECKS = {
              "equivalent server spellings through HashClient, spread over corpora (short and 250-byte keys) -- every placement query is validated by TLC.",
         technique="TLA+ model of the placement fold model-checked against the set-based rule (all score tables with forced ties); spec-to-code replay; TLC trace validation of real placements",
         design_ref="4 C11", note=TRUST + " Keys are str; the hash function itself is C14's subject."),
+    "C12": dict(
+        category="model_checking",
+        text="TLC explores the as-coded routing model spec/HashRoute.tla (every placement function of 4 routing keys onto 2 (thorough 3) servers, "
+             "every sequence of set / set_many / get / get_many / delete over plain keys and (server_key, key) pairs incl. two pairs sharing a key "
+             "name) against the contract monitor spec/RouteRule.tla and exports every behaviour; each is replayed into the real HashClient over a "
+             "multi-server fake socket module with placement forced through the hasher= seam. With the real RendezvousHash: 1..5 servers (TCP and "
+             "UNIX), key sets of 0..50 keys (str, bytes, pairs), prefixes, pooling on/off, every key-addressed operation, and a server-set growth "
+             "in mid-trace. TLC validates per-server command logs against the placement of every routing key (asked of the hasher by the harness): "
+             "each key sent exactly once to its server and nowhere else, single- and multi-key operations agree, what was written is found.",
+        technique="TLA+ routing model model-checked against the contract monitor; spec-to-code replay with forced placement; TLC trace validation of per-server logs",
+        design_ref="4 C12", note=TRUST + " Placement itself is C11's subject; failover is C13's."),
     "C14": dict(
         category="model_checking",
         text="spec/Murmur3.tla is MurmurHash3_x86_32 written in TLA+ over <<hi16, lo16>> words (8x16-bit partial products), pinned by 22 published "
